@@ -16,8 +16,8 @@ if [ -z "$SKIP" ]; then
   if ! go test -vet=off -count=1 ./... > suite.log 2>&1; then grep -v "^ok\|no test files" suite.log | head -20; echo "RESULT existing-suite-fails"; exit 1; fi
 fi
 cp "$DEMO" "$PKG/"
-timeout 300 go test -vet=off -count=1 -run "$RUN" "./$PKG/" > with.log 2>&1; WITH=$?
+timeout 300 go test -vet=off -count=1 ${MUT_GOTEST_FLAGS:-} -run "$RUN" "./$PKG/" > with.log 2>&1; WITH=$?
 git apply -R "$M/patch.diff"
-timeout 300 go test -vet=off -count=1 -run "$RUN" "./$PKG/" > without.log 2>&1; WITHOUT=$?
+timeout 300 go test -vet=off -count=1 ${MUT_GOTEST_FLAGS:-} -run "$RUN" "./$PKG/" > without.log 2>&1; WITHOUT=$?
 echo "demo with change: exit $WITH; without: exit $WITHOUT"
 if [ $WITH -ne 0 ] && [ $WITHOUT -eq 0 ]; then echo "RESULT confirmed"; else tail -5 with.log without.log; echo "RESULT not-confirmed"; exit 1; fi
